@@ -13,7 +13,7 @@ import (
 
 // C20 — policy-section ID allocator: explicit-state BFS to fixpoint over the real IDGenerator.
 //
-// State key = (sorted live offsets, scan offset) read from the object by reflection (used only to
+// State key = every field of the object (live set, scan offset, bounds, and anything added later) read by reflection (used only to
 // deduplicate; merged states have identical fields, hence identical futures). Successor = fresh
 // allocator + replay of the shortest path + one operation. The oracle is a live-set reference model
 // (ids returned and not yet freed) and is purely observational.
@@ -31,19 +31,56 @@ type c20Path struct {
 }
 
 func c20Key(g *uePolicyContainer.IDGenerator) string {
+	// every field of the allocator enters the key (read by reflection), so that a field added later — a cache, a
+	// hint — cannot make two different states look alike
 	v := reflect.ValueOf(g).Elem()
-	off := v.FieldByName("offset")
-	um := v.FieldByName("usedMap")
-	if !off.IsValid() || !um.IsValid() || um.Kind() != reflect.Map {
+	if _, ok := v.Type().FieldByName("usedMap"); !ok {
 		return ""
 	}
-	var ks []int64
-	it := um.MapRange()
-	for it.Next() {
-		ks = append(ks, it.Key().Int())
+	var parts []string
+	for i := 0; i < v.NumField(); i++ {
+		parts = append(parts, v.Type().Field(i).Name+"="+c20FieldKey(v.Field(i)))
 	}
-	sort.Slice(ks, func(i, j int) bool { return ks[i] < ks[j] })
-	return fmt.Sprint(ks, off.Int())
+	return strings.Join(parts, " ")
+}
+
+func c20FieldKey(f reflect.Value) string {
+	switch f.Kind() {
+	case reflect.Int, reflect.Int8, reflect.Int16, reflect.Int32, reflect.Int64:
+		return fmt.Sprint(f.Int())
+	case reflect.Uint, reflect.Uint8, reflect.Uint16, reflect.Uint32, reflect.Uint64:
+		return fmt.Sprint(f.Uint())
+	case reflect.Bool:
+		return fmt.Sprint(f.Bool())
+	case reflect.Map:
+		var ks []string
+		it := f.MapRange()
+		for it.Next() {
+			ks = append(ks, c20FieldKey(it.Key())+":"+c20FieldKey(it.Value()))
+		}
+		sort.Strings(ks)
+		return "[" + strings.Join(ks, " ") + "]"
+	case reflect.Slice, reflect.Array:
+		var ks []string
+		for i := 0; i < f.Len(); i++ {
+			ks = append(ks, c20FieldKey(f.Index(i)))
+		}
+		return "(" + strings.Join(ks, " ") + ")"
+	case reflect.Ptr, reflect.Interface:
+		if f.IsNil() {
+			return "nil"
+		}
+		return c20FieldKey(f.Elem())
+	case reflect.Struct:
+		var ks []string
+		for i := 0; i < f.NumField(); i++ {
+			ks = append(ks, c20FieldKey(f.Field(i)))
+		}
+		return "{" + strings.Join(ks, " ") + "}"
+	case reflect.String:
+		return f.String()
+	}
+	return "?"
 }
 
 // c20Exec replays the path on a fresh allocator, checking every step against the live-set model, and
@@ -223,13 +260,18 @@ func c20Run(c *core.Ctx) {
 
 func outcomeOfKey(k string, size int64) string {
 	// coarse class: number of live ids (exposes vacuous searches that never fill or drain the allocator)
-	i := strings.Index(k, "]")
+	i := strings.Index(k, "usedMap=[")
 	if i < 0 {
 		return "?"
 	}
+	rest := k[i+len("usedMap=["):]
+	j := strings.Index(rest, "]")
+	if j < 0 {
+		return "?"
+	}
 	n := 0
-	if i > 1 {
-		n = strings.Count(k[:i], " ") + 1
+	if j > 0 {
+		n = strings.Count(rest[:j], " ") + 1
 	}
 	return fmt.Sprintf("size%d/live%d", size, n)
 }
@@ -240,7 +282,7 @@ func init() {
 		ID: "C20", Level: "model_checking", Run: c20Run,
 		Shards: func(tier string) int { return 16 },
 		Rule: func(tier string) string {
-			return "BFS to fixpoint over the reachable states (live set, scan offset) of the real IDGenerator for every configured range; every operation (Allocate, Allocate_inRange(a,b) for all a,b in [max(0,min-2), max+2] (out-of-bounds and reversed pairs included), FreeID(x) for all x in [min-1,max+1]) is applied in every state by replaying the shortest path on a fresh allocator; each transition is checked against a live-set model and followed by the closure check (repeated Allocate returns exactly the free ids). States are distinct by (sorted live offsets, scan offset)."
+			return "BFS to fixpoint over the reachable states (live set, scan offset) of the real IDGenerator for every configured range; every operation (Allocate, Allocate_inRange(a,b) for all a,b in [max(0,min-2), max+2] (out-of-bounds and reversed pairs included), FreeID(x) for all x in [min-1,max+1]) is applied in every state by replaying the shortest path on a fresh allocator; each transition is checked against a live-set model and followed by the closure check (repeated Allocate returns exactly the free ids). States are distinct by the values of all fields of the allocator."
 		},
 		Bounds: func(tier string) map[string]any {
 			var l []string
